@@ -177,6 +177,11 @@ def contract(m: Model, op, recursive=True, full=False):
                 R.add(ev("created", False, f))
                 dirmod(paths[lvl])
                 A |= {ev("opened", False, f), ev("closed", False, f)}
+        for lvl, dn in (op[4] if len(op) > 4 else []):  # extra sibling directories inside the new directories
+            dd = paths[lvl] + "/" + dn
+            if in_scope(dd, recursive):
+                R.add(ev("created", True, dd))
+                dirmod(paths[lvl])
     elif k == "rmdir":
         p = op[1]
         if in_scope(p, recursive):
@@ -255,6 +260,8 @@ def apply(m: Model, op):
             paths.append(p)
         for lvl, fn in op[3]:
             m.add(paths[lvl] + "/" + fn, "f")
+        for lvl, dn in (op[4] if len(op) > 4 else []):
+            m.add(paths[lvl] + "/" + dn, "d")
     elif k in ("unlink", "rmdir", "rmtree"):
         m.remove(op[1])
     elif k == "rename":
@@ -302,10 +309,12 @@ def valid(m: Model, op, paced=True):
     if k == "burst":
         if not valid(m, ["makedirs", op[1], op[2]], paced):
             return False
-        for lvl, fn in op[3]:
+        extra = op[4] if len(op) > 4 else []
+        for lvl, fn in list(op[3]) + list(extra):
             if lvl >= len(op[2]) or (lvl + 1 < len(op[2]) and op[2][lvl + 1] == fn):
                 return False
-        return len({(l, f) for l, f in op[3]}) == len(op[3])
+        allnames = [(l, f) for l, f in list(op[3]) + list(extra)]
+        return len(set(allnames)) == len(allnames)
     if k == "makedirs":
         p = op[1]
         if m.kind(p) != "d" or not is_under(p, ROOT) or not op[2]:
@@ -370,9 +379,14 @@ def taint_after(m_before: Model, m: Model, op):
         m.taint(op[1])
     elif k in ("makedirs", "burst"):
         p = op[1]
+        paths = []
         for n in op[2]:
             p = p + "/" + n
+            paths.append(p)
             m.taint(p)
+        if k == "burst":
+            for lvl, dn in (op[4] if len(op) > 4 else []):
+                m.taint(paths[lvl] + "/" + dn)
     elif k == "rmdir":
         m.tainted_names.add(op[1])
     elif k == "rmtree":
@@ -459,13 +473,18 @@ def gen_ops(rng: random.Random, m: Model, n, names=("a", "b", "c"), max_depth=3,
             depth_left = max_depth - d.count("/")
             if depth_left >= 1:
                 chain = [rng.choice(names) for _ in range(rng.randrange(1, depth_left + 1))]
-                files = []
+                files, extra = [], []
                 for lvl in range(len(chain)):
                     for fn in names:
-                        if rng.random() < 0.4 and not (lvl + 1 < len(chain) and chain[lvl + 1] == fn):
+                        if lvl + 1 < len(chain) and chain[lvl + 1] == fn:
+                            continue
+                        r = rng.random()
+                        if r < 0.35:
                             files.append([lvl, fn])
-                if files:
-                    op = [k, d, chain, files]
+                        elif r < 0.55:
+                            extra.append([lvl, fn])  # a sibling directory next to the chain
+                if files or extra:
+                    op = [k, d, chain, files, extra]
         elif k == "rmdir":
             ds = [q for q in m.dirs_in(ROOT) if q != ROOT and not m.children(q)]
             if ds:
